@@ -1,4 +1,5 @@
 import Netpoll.ManagerLemmas
+import Netpoll.ManagerRes
 import Netpoll.ManagerArith
 import Netpoll.ManagerVariant
 import Netpoll.ManagerExamples
@@ -9,7 +10,10 @@ Model: `Netpoll.Manager` (one step per atomic step of `manager.Pick` / `Run` / t
 any number of concurrent pickers, `SetNumLoops` / `SetLoadBalance` only while no `Pick` is in flight).
 `Reachable n s`: `s` is reachable from `newManager n` by any sequence of such steps.
 `Clean s`: the environment injected no `openPoll` failure and no round-robin ticket ≥ 2^63 was handed
-out (A-no-wrap).  Both are needed: see the `_witness` theorems at the end.
+out (A-no-wrap).  Both are needed for the claims about what `Pick` returns: see the `_witness` theorems at the
+end (after a failed `Run` the manager is closed and has no balancer; `Pick` cannot report an error).  The claims
+about the pollers themselves – pool size, every surplus or orphaned poller closed exactly once, nothing left
+behind – need neither since the fix of F2 (`C18_size`, `C18_none_left_behind`, `C18_failed_run_closes_all`).
 -/
 namespace Netpoll.Props.C18
 open Netpoll.Manager
@@ -51,19 +55,20 @@ theorem C18_running_at_return {n : Nat} (hn : 1 ≤ n) {s s' : S} (hr : Reachabl
 /-- **The pool has exactly the configured size.**  Once a phase's first slow path has completed
 (`status = initialized`): the slice has `numLoops` distinct members; the running loops are exactly the
 members of the slice; every other poller ever opened has been closed, and no poller was closed twice;
-the census of open pollers is `numLoops`; the balancer's snapshot is the slice. -/
-theorem C18_size {n : Nat} (hn : 1 ≤ n) {s : S} (hr : Reachable n s) (hc : Clean s) (h2 : s.status = 2) :
+the census of open pollers is `numLoops`.  No hypothesis on the environment: any number of injected
+`openPoll` failures (a failed `Run` closes what it had opened together with the old pool and leaves
+`numLoops = 0`, an empty slice), any counter value, any `n`. -/
+theorem C18_size {n : Nat} {s : S} (hr : Reachable n s) (h2 : s.status = 2) :
     s.polls.length = s.numLoops ∧ s.polls.Nodup ∧
     (∀ id, id ∈ s.polls ↔ (id ∈ s.started ∧ id ∉ s.closed)) ∧
     s.closed.Nodup ∧
     (∀ id, id < s.opened → id ∈ s.polls ∨ id ∈ s.closed) ∧
     s.opened - s.closed.length = s.numLoops ∧
-    s.alive.length = s.numLoops ∧
-    Synced s.bal s.polls := by
-  have h := core_reachable hn hr hc
-  obtain ⟨_, _, ⟨hnd, hmem, hcov⟩, hsy⟩ := lock_not1 h.lock (by omega)
+    s.alive.length = s.numLoops := by
+  have h := res_reachable hr
+  obtain ⟨⟨hnd, hmem, hcov⟩, hsz⟩ := res_quiet h (res_status2 h h2)
   obtain ⟨hlc, hls, hlcs, hlso⟩ := h.logs
-  have hlen := h.sized h2
+  have hlen := hsz h2
   have hiff : ∀ id, id ∈ s.polls ↔ (id ∈ s.started ∧ id ∉ s.closed) := fun id =>
     ⟨fun hm => (hmem id hm).2, fun ⟨hs, hncl⟩ => (hcov id (hlso id hs)).resolve_right hncl⟩
   have hcard : (s.polls ++ s.closed).length = s.opened := by
@@ -79,18 +84,83 @@ theorem C18_size {n : Nat} (hn : 1 ≤ n) {s : S} (hr : Reachable n s) (hc : Cle
     intro x
     simp only [List.mem_filter, Bool.not_eq_true', List.contains_eq_mem, decide_eq_false_iff_not]
     exact (hiff x).symm
-  exact ⟨hlen, hnd, hiff, hlc, hcov, by omega, by omega, hsy⟩
+  exact ⟨hlen, hnd, hiff, hlc, hcov, by omega, by omega⟩
 
 example : ∃ s, Reachable 3 s ∧ Clean s ∧ s.status = 2 ∧ s.polls = [0] ∧ s.closed = [1, 2] ∧ s.numLoops = 1 :=
   ⟨traceEnd 3 exShrink, reachable_traceEnd 3 exShrink (by decide), by decide, by decide, by decide, by decide, by decide⟩
 
+/-- …and the balancer's snapshot is that slice (this half needs `Clean`: a failed `Run` leaves no balancer). -/
+theorem C18_size_balancer {n : Nat} (hn : 1 ≤ n) {s : S} (hr : Reachable n s) (hc : Clean s) (h2 : s.status = 2) :
+    Synced s.bal s.polls := by
+  have h := core_reachable hn hr hc
+  exact (lock_not1 h.lock (by omega)).2.2.2
+
 /-- the same as the executable oracle the harness's dumps are judged with (`npdriver mgrspec`) -/
 theorem C18_size_oracle {n : Nat} (hn : 1 ≤ n) {s : S} (hr : Reachable n s) (hc : Clean s) (h2 : s.status = 2) :
     s.obs.sized = true := by
-  obtain ⟨hlen, hnd, hiff, hlc, _, hlive, _, b, hb, hbp, hbs⟩ := C18_size hn hr hc h2
+  obtain ⟨hlen, hnd, hiff, hlc, _, hlive, _⟩ := C18_size hr h2
+  obtain ⟨b, hb, hbp, hbs⟩ := C18_size_balancer hn hr hc h2
   simp only [Obs.sized, S.obs, hb, Bool.and_eq_true, beq_iff_eq, decide_eq_true_eq, List.all_eq_true,
     Bool.not_eq_true', List.contains_eq_mem, decide_eq_false_iff_not]
   exact ⟨⟨⟨⟨⟨hlen, hnd⟩, fun id hid => ((hiff id).mp hid).2⟩, hlive⟩, hlc⟩, hbp, hbs⟩
+
+/-- **No poller is ever left behind.**  In every reachable state in which nobody is inside `Run` – whatever the
+status, after any number of injected `openPoll` failures, panics, reconfigurations: the slice holds distinct
+pollers whose loops were started and which were not closed; every other poller ever opened has been closed,
+none twice; the census of open pollers is exactly the slice.  (Before the fix of F2 the pollers a failing `Run`
+had opened were in no slice and never closed: `C18_openfail_prefix_witness`.)  The last conjunct is the
+executable clause the implementation's dumps are judged with after a failure (`npdriver mgrspec`). -/
+theorem C18_none_left_behind {n : Nat} {s : S} (hr : Reachable n s) (hq : s.runners = []) :
+    s.polls.Nodup ∧ (∀ id, id ∈ s.polls → id ∈ s.started ∧ id ∉ s.closed) ∧ s.closed.Nodup ∧
+    (∀ id, id < s.opened → id ∈ s.polls ∨ id ∈ s.closed) ∧
+    s.opened - s.closed.length = s.polls.length ∧
+    s.obs.noStray = true := by
+  have h := res_reachable hr
+  obtain ⟨⟨hnd, hmem, hcov⟩, _⟩ := res_quiet h hq
+  obtain ⟨hlc, hls, hlcs, hlso⟩ := h.logs
+  have hcard : (s.polls ++ s.closed).length = s.opened := by
+    apply cover_length
+    · rw [List.nodup_append]
+      exact ⟨hnd, hlc, fun a ha b hb hab => (hmem a ha).2.2 (hab ▸ hb)⟩
+    · intro x
+      rw [List.mem_append]
+      exact ⟨fun hx => hx.elim (fun hx => (hmem x hx).1) (fun hx => hlso x (hlcs x hx)), hcov x⟩
+  rw [List.length_append] at hcard
+  have hlive : s.opened - s.closed.length = s.polls.length := by omega
+  refine ⟨hnd, fun id hid => (hmem id hid).2, hlc, hcov, hlive, ?_⟩
+  simp only [Obs.noStray, S.obs, Bool.and_eq_true, beq_iff_eq, List.all_eq_true,
+    Bool.not_eq_true', List.contains_eq_mem, decide_eq_false_iff_not]
+  exact ⟨⟨⟨hlive, decide_eq_true hnd⟩, fun id hid => (hmem id hid).2.2⟩, decide_eq_true hlc⟩
+
+example : ∃ s, Reachable 2 s ∧ ¬ Clean s ∧ s.fails = 1 ∧ s.runners = [] ∧ s.opened = 1 ∧ s.closed = [0] ∧ s.polls = [] :=
+  ⟨traceEnd 2 exOpenFail, reachable_traceEnd 2 exOpenFail (by decide), by decide, by decide, by decide, by decide,
+    by decide, by decide⟩
+
+/-- **A failed `Run` closes everything it leaves.**  At the step with which the error path of `Run` returns
+(`openPoll` failed while the pool was growing; the deferred `Close` has visited every poller of the slice that
+`Run` handed it – the old pool and the pollers opened by this very call): every poller ever opened has been
+closed, the census of open pollers is 0, and the manager is exactly as `Close` leaves it (empty slice,
+`numLoops = 0`, no balancer). -/
+theorem C18_failed_run_closes_all {n : Nat} {s s' : S} (hr : Reachable n s) (r : Runner) (f : Bool)
+    (hrun : s.runners = [r]) (hpc : r.pc = .eclear) (hs : step s (.run 0 f) = some s') :
+    (∀ id, id < s'.opened → id ∈ s'.closed) ∧ s'.opened - s'.closed.length = 0 ∧
+    s'.polls = [] ∧ s'.numLoops = 0 ∧ s'.bal = none ∧ s'.runners = [] := by
+  have hr' : Reachable n s' := Reachable.step _ hr hs
+  simp only [step, runStep, hrun, List.getElem?_cons_zero, hpc] at hs
+  have e := (Option.some.inj hs).symm
+  have hq : s'.runners = [] := by rw [e]; simp [S.runReturn]
+  have hp : s'.polls = [] := by rw [e]; rfl
+  have hnl : s'.numLoops = 0 := by rw [e]; rfl
+  have hb : s'.bal = none := by rw [e]; rfl
+  obtain ⟨_, _, _, hcov, hlive, _⟩ := C18_none_left_behind hr' hq
+  refine ⟨fun id hid => ?_, ?_, hp, hnl, hb, hq⟩
+  · rcases hcov id hid with hm | hm
+    · rw [hp] at hm; simp at hm
+    · exact hm
+  · rw [hp] at hlive; simpa using hlive
+
+example : ∃ s, Reachable 2 s ∧ s.runners.map Runner.pc = [RPc.eclear] ∧ (step s (.run 0 false)).isSome = true :=
+  ⟨traceEnd 2 (exOpenFail.take 8), reachable_traceEnd 2 _ (by decide), by decide, by decide⟩
 
 /-- **No picker is stuck.**  If no productive step is enabled, every `Pick` has returned: whenever
 pickers wait (status = initializing) the goroutine that holds the lock still has a step to take, so
@@ -209,14 +279,24 @@ theorem C18_round_robin_sign_witness (n : Nat) (hn : 2 ≤ n) :
 example : (rrPick two63 2 2).2 = none ∧ (rrPick (two63 - 1) 3 3).2 = none ∧ (rrPick (two64 - 2) 3 3).2 = none ∧
     (rrPicks (two63 - 3) 3 3 5) = [some 0, some 1, none, none, some 0] := by decide
 
-/-- `openPoll` failing during a grow (e.g. EMFILE) is not handled: `Run`'s error path closes the OLD
-pollers, drops the ones just opened (one is left running outside any slice here) and sets the balancer to
-nil; the caller and every later `Pick` then panic on the nil balancer.  Hence `Clean` excludes it. -/
+/-- `openPoll` failing during a grow (e.g. EMFILE): `Run`'s error path closes every poller – the old pool
+and the ones just opened (poller 0 here; nothing stays open) – and `Close` sets the balancer to nil; `Pick`
+has no way to report the error, so the caller and every later `Pick` panic on the nil balancer until
+`SetLoadBalance` and `SetNumLoops` are called again.  Hence `Clean` excludes it for the claims about `Pick`. -/
 theorem C18_openfail_witness :
     ∃ s, Reachable 2 s ∧ s.fails = 1 ∧ s.panics = 1 ∧ s.polls = [] ∧ s.bal = none ∧ s.status = 2 ∧
-      s.opened - s.closed.length = 1 :=
+      s.numLoops = 0 ∧ s.closed = [0] ∧ s.opened - s.closed.length = 0 :=
   ⟨traceEnd 2 exOpenFail, reachable_traceEnd 2 exOpenFail (by decide),
-    by decide, by decide, by decide, by decide, by decide, by decide⟩
+    by decide, by decide, by decide, by decide, by decide, by decide, by decide, by decide⟩
+
+/-- F2 (fixed in /repo): the same schedule on the code BEFORE the fix (`stepPreF2`: `return err` without
+`m.polls = polls[:idx]`): the deferred `Close` sees the old (empty) pool only; poller 0, opened and started by
+this call, is in no slice, was never closed and stays open for ever. -/
+theorem C18_openfail_prefix_witness :
+    ∃ s, runActsPreF2 (init 2) exOpenFailPreF2 = some s ∧ s.fails = 1 ∧ s.panics = 1 ∧ s.runners = [] ∧ s.polls = [] ∧
+      s.started = [0] ∧ s.closed = [] ∧ s.opened - s.closed.length = 1 ∧ s.obs.noStray = false :=
+  ⟨(runActsPreF2 (init 2) exOpenFailPreF2).getD (init 2), by decide, by decide, by decide, by decide, by decide,
+    by decide, by decide, by decide, by decide⟩
 
 /-- `newManager(0)` (not reachable through the public API: the package creates its manager with
 `GOMAXPROCS/20+1 ≥ 1` and `SetNumLoops` rejects values below 1) leaves `numLoops = 0`; the first `Pick`
